@@ -61,7 +61,7 @@ def strip_cast(node):
 
 def enclosing(node, kinds):
     p = getattr(node, '_parent', None)
-    while p is not None and not isinstance(p, kinds):
+    while p is not None and (not isinstance(p, kinds) or getattr(p, '_synthetic', False)):
         p = getattr(p, '_parent', None)
     return p
 
